@@ -1650,6 +1650,8 @@ impl Matcher {
                                     return Err(MatcherError::EventReceiverClosed);
                                 }
                                 _ = self.last_change_tx.send(change_id);
+                                #[cfg(feature = "verif-hooks")]
+                                crate::verif::point("match.event_sent");
                             }
                             Err(e) => {
                                 error!("could not deserialize row's cells: {e}");
@@ -1673,6 +1675,9 @@ impl Matcher {
                 trace!("cleaned up temp_{table}");
             }
         }
+
+        #[cfg(feature = "verif-hooks")]
+        crate::verif::point("match.before_commit");
 
         tx.commit()?;
 
